@@ -276,7 +276,40 @@ def h_run_mapping_reduced(ctx, case):
     return 'ok' if e1 is None else 'error'
 
 
+def _rm_setup(case, mode):
+    from harness import refmarkers as RM
+    RM.setup(case, mode)
+
+
+def h_marker_cli_unknown_level(ctx, case):
+    """the reference-marker command line runner with a drop_level the
+    taxonomy does not contain: nothing changes (same tables as without
+    the option)"""
+    from harness import refmarkers as RM
+    res = RM.run_cli(ctx, case, faults=False)
+    if res['prior'] != 'nothing' and not res['clobber']:
+        return 'refused'
+    if res['raised'] is not None:
+        ctx.exception(res['raised'], f"drop_level={res['drop_level']!r}: "
+                      + str(res['raised'])[:90])
+        return 'EXC'
+    ctx.reach('ran')
+    # the oracle of check_tables is the one of the full taxonomy
+    RM.check_tables(ctx, res)
+    return 'ok'
+
+
 HARNESSES = [
+    Harness('reference_marker_cli_unknown_level', h_marker_cli_unknown_level,
+            setup=_rm_setup,
+            cases=[{'K': 0, 'drop_levels': [None, 'not_a_level', 'clas']}],
+            funcs=['cli.reference_markers.ReferenceMarkerRunner.run'],
+            stubs=['argschema parsing -> fully specified argument dict',
+                   'multiprocessing -> scheduler model'],
+            bounds='drop_level absent / a name that is not a level / a '
+                   'prefix of a level name; 1-3 workers; used or unused '
+                   'output directory',
+            expect_reach=['ran']),
     Harness('reduction_equivalence', h_equivalence, setup=LL.setup,
             cases=[{'sizes': s} for s in ([2, 3], [1, 2, 3], [2, 2, 3])]
             + [{'sizes': [2, 2, 2], 'alias': True}],
